@@ -16,6 +16,8 @@ for (a) the CPython cross-check of every explored path and (b) the replay of cou
 """
 from __future__ import annotations
 
+from ._safe import isinstance
+
 import contextvars
 import dataclasses
 import fractions
@@ -76,6 +78,7 @@ class Engine:
         self.draws: list[tuple[str, Any]] = []     # (name, z3 const) in draw order
         self.names: dict[str, int] = {}
         self.dead = False
+        self.backedge = False
         self.path_no = path_no
         self.fuel = fuel
         self.solver_s = 0.0
@@ -218,6 +221,8 @@ class Engine:
             self.solver.pop()
         ms = (time.time() - t0) * 1000
         self.solver_s += ms / 1000
+        if any(ev and ev[0] == 'loop-head' for ev in self.trace):
+            note = (note + ' loop-cut').strip()
         self.obligations.append(Obligation(
             name=name, path=self.path_no, status=st, backend=backend, ms=ms,
             goal_smt=smt if (st != 'proved') else '', model=model,
